@@ -18,6 +18,8 @@ type vDoc struct {
 	note     string
 	hasExtra bool
 	extraK   int64
+	extraJ   bool // the nested object also has a second key "j" (inserted documents)
+	extraLit bool // the nested "k" holds the literal string "_delete" (a nested marker is data, updates merge shallowly)
 }
 
 func (d vDoc) toMap() map[string]any {
@@ -29,7 +31,14 @@ func (d vDoc) toMap() map[string]any {
 		m["note"] = d.note
 	}
 	if d.hasExtra {
-		m["extra"] = map[string]any{"k": d.extraK}
+		e := map[string]any{"k": d.extraK}
+		if d.extraLit {
+			e["k"] = DELETEVALUE
+		}
+		if d.extraJ {
+			e["j"] = int64(7)
+		}
+		m["extra"] = e
 	}
 	return m
 }
@@ -54,6 +63,7 @@ func drawDoc() vDoc {
 	}
 	if d.hasExtra {
 		d.extraK = nondetInt64()
+		d.extraJ = true
 	}
 	return d
 }
@@ -116,8 +126,20 @@ func checkDoc(label string, got map[string]any, want vDoc) {
 		e, ok := got["extra"].(map[string]any)
 		vassert(label+"-extra-is-map", ok)
 		if ok {
-			k, ok2 := e["k"].(int64)
-			vassert(label+"-extra-k", ok2 && k == want.extraK && len(e) == 1)
+			ne := 1
+			if want.extraJ {
+				ne = 2
+				j, okj := e["j"].(int64)
+				vassert(label+"-extra-j", okj && j == 7)
+			}
+			if want.extraLit {
+				lit, okl := e["k"].(string)
+				vassert(label+"-nested-delete-marker-is-stored-as-data", okl && lit == DELETEVALUE)
+			} else {
+				k, ok2 := e["k"].(int64)
+				vassert(label+"-extra-k", ok2 && k == want.extraK)
+			}
+			vassert(label+"-nested-object-is-replaced-not-merged", len(e) == ne)
 		}
 	}
 	vassert(label+"-no-other-fields", len(got) == n)
@@ -215,15 +237,15 @@ func VerifInsertBatch() {
 }
 
 type vUpd struct {
-	priceOp, noteOp, extraOp int // 0 absent, 1 set, 2 "_delete"
+	priceOp, noteOp, extraOp int // 0 absent, 1 set, 2 "_delete"; extraOp 3: nested object holding the marker
 	price, extraK            int64
 	note                     string
 }
 
 func drawUpd() vUpd {
 	u := vUpd{priceOp: nondetIntRange(0, 2), noteOp: nondetIntRange(0, 2)}
-	if vparam("RICH", 0) == 1 {
-		u.extraOp = nondetIntRange(0, 2)
+	if vparam("RICH", 0) == 1 || vparam("NESTED", 1) == 1 {
+		u.extraOp = nondetIntRange(0, 3)
 	}
 	if u.priceOp == 1 {
 		u.price = nondetInt64()
@@ -256,6 +278,8 @@ func (u vUpd) toMap() map[string]any {
 		m["extra"] = map[string]any{"k": u.extraK}
 	case 2:
 		m["extra"] = DELETEVALUE
+	case 3:
+		m["extra"] = map[string]any{"k": DELETEVALUE}
 	}
 	return m
 }
@@ -275,9 +299,11 @@ func (u vUpd) apply(d vDoc) vDoc {
 	}
 	switch u.extraOp {
 	case 1:
-		d.hasExtra, d.extraK = true, u.extraK
+		d.hasExtra, d.extraK, d.extraJ, d.extraLit = true, u.extraK, false, false
 	case 2:
-		d.hasExtra, d.extraK = false, 0
+		d.hasExtra, d.extraK, d.extraJ, d.extraLit = false, 0, false, false
+	case 3:
+		d.hasExtra, d.extraK, d.extraJ, d.extraLit = true, 0, false, true
 	}
 	return d
 }
